@@ -217,6 +217,10 @@ class ChallengeField(Field):
         if isinstance(value, (str, bytes)):
             val = self._hash(value)
         elif isinstance(value, DigestValue):
+            if value.algorithm is not self.algorithm:
+                # only salt and digest are saved: it would come back as a digest of this field's
+                # algorithm that no longer verifies the secret
+                raise ValueError("digest value was created with another hash algorithm")
             val = value
         else:
             raise ValueError("value must be a string, not a %s" % type(value).__name__)
